@@ -51,17 +51,18 @@ var shimAlias = map[string]string{
 var ownPkgs = map[string]bool{modPath: true, modPath + "/testdirectory": true}
 
 type xf struct {
-	pkg      *packages.Package
-	nRd, nW  int
-	needRT   bool
-	needShim map[string]bool
-	siteFn   []string
-	siteLoc  []string
-	curFn    string
-	virtPath string // import path the transformed module root gets
-	warn     []string
-	plain    bool
-	captured map[*types.Var]bool // locals of the current function that a `go func(){...}` literal captures
+	pkg        *packages.Package
+	nRd, nW    int
+	needRT     bool
+	needShim   map[string]bool
+	siteFn     []string
+	siteLoc    []string
+	curFn      string
+	virtPath   string // import path the transformed module root gets
+	warn       []string
+	plain      bool
+	captured   map[*types.Var]bool // locals of the current function that a function literal captures and that are reassigned
+	mutGlobals map[*types.Var]bool // package-level variables that some function assigns to
 }
 
 func main() {
@@ -121,6 +122,7 @@ func main() {
 			os.Exit(2)
 		}
 		x := &xf{pkg: p, virtPath: *virtImport, plain: *plain}
+		x.findMutGlobals()
 		rel, _ := filepath.Rel(modPath, p.PkgPath)
 		if p.PkgPath == modPath {
 			rel = "."
@@ -263,14 +265,12 @@ func (x *xf) file(f *ast.File) {
 	}
 }
 
-// findCaptured collects the local variables that function literals started with `go` refer to.
+// findCaptured collects the local variables that function literals refer to: a literal started with `go`
+// runs concurrently with its parent, and a literal that escapes (a handler returned by a constructor, a
+// callback) may be called by any number of goroutines at once.
 func (x *xf) findCaptured(d ast.Decl) {
 	ast.Inspect(d, func(n ast.Node) bool {
-		gs, ok := n.(*ast.GoStmt)
-		if !ok {
-			return true
-		}
-		lit, ok := gs.Call.Fun.(*ast.FuncLit)
+		lit, ok := n.(*ast.FuncLit)
 		if !ok {
 			return true
 		}
@@ -350,6 +350,54 @@ func simpleType(t types.Type) bool {
 	return false
 }
 
+// findMutGlobals collects the package-level variables (of simple types) that are assigned to inside a function
+// body: shared mutable state that any goroutine may touch.
+func (x *xf) findMutGlobals() {
+	x.mutGlobals = map[*types.Var]bool{}
+	mark := func(e ast.Expr) {
+		for {
+			if p, ok := e.(*ast.ParenExpr); ok {
+				e = p.X
+				continue
+			}
+			break
+		}
+		id, ok := e.(*ast.Ident)
+		if !ok {
+			return
+		}
+		v, ok := x.pkg.TypesInfo.Uses[id].(*types.Var)
+		if !ok || v.IsField() || v.Pkg() != x.pkg.Types || v.Parent() != x.pkg.Types.Scope() {
+			return
+		}
+		if !simpleType(v.Type()) || isShimType(v.Type()) {
+			return
+		}
+		x.mutGlobals[v] = true
+	}
+	for _, f := range x.pkg.Syntax {
+		for _, d := range f.Decls {
+			fd, ok := d.(*ast.FuncDecl)
+			if !ok || fd.Body == nil || fd.Name.Name == "init" {
+				continue
+			}
+			ast.Inspect(fd.Body, func(n ast.Node) bool {
+				switch t := n.(type) {
+				case *ast.AssignStmt:
+					for _, l := range t.Lhs {
+						mark(l)
+					}
+				case *ast.IncDecStmt:
+					mark(t.X)
+				}
+				return true
+			})
+		}
+	}
+}
+
+func (x *xf) isShared(v *types.Var) bool { return x.captured[v] || x.mutGlobals[v] }
+
 func (x *xf) capturedIdent(e ast.Expr) *ast.Ident {
 	for {
 		if p, ok := e.(*ast.ParenExpr); ok {
@@ -362,13 +410,20 @@ func (x *xf) capturedIdent(e ast.Expr) *ast.Ident {
 	if !ok {
 		return nil
 	}
-	if v, ok := x.pkg.TypesInfo.Uses[id].(*types.Var); ok && x.captured[v] {
+	if v, ok := x.pkg.TypesInfo.Uses[id].(*types.Var); ok && x.isShared(v) {
 		return id
 	}
 	return nil
 }
 
-func (x *xf) localLoc(id *ast.Ident) string { return "local " + x.curFn + "." + id.Name }
+func (x *xf) localLoc(id *ast.Ident) string {
+	if v, ok := x.pkg.TypesInfo.Uses[id].(*types.Var); ok && x.mutGlobals[v] {
+		return "global " + x.pkg.Name + "." + id.Name
+	}
+	// the variable belongs to the function that declares it, whichever literal touches it
+	fn := x.curFn
+	return "local " + fn + "." + id.Name
+}
 
 func isShimType(t types.Type) bool {
 	for {
@@ -662,7 +717,7 @@ func (x *xf) post(c *astutil.Cursor) bool {
 			return true
 		}
 		v, ok := x.pkg.TypesInfo.Uses[n].(*types.Var)
-		if !ok || !x.captured[v] {
+		if !ok || !x.isShared(v) {
 			return true
 		}
 		switch par := c.Parent().(type) {
